@@ -1,7 +1,9 @@
 #!/bin/sh
 # usage: confirm_round4.sh C13 C12 ...   (sequentially; results appended to /tmp/confirm4.log)
 for P in "$@"; do
-  N=$(ls -d /verif/seeded/$P-* 2>/dev/null | wc -l)
+  # the highest number in use (NOT the count: earlier rounds left gaps, and counting wrote over X-9 once)
+  N=$(ls -d /verif/seeded/$P-* 2>/dev/null | sed 's/.*-//' | sort -n | tail -1)
+  N=${N:-0}
   for K in 1 2 3; do
     D=/tmp/mut4-$P/_out/$K
     [ -f $D/patch.diff ] || continue
